@@ -89,18 +89,18 @@ theorem bad_signature_or_alg_refused (p : Policy) (client : Str) (outer : Params
   · simp only; split; · rfl
     simp [h]
 
-/-! ### PAR: one-shot redemption, only through the issued URN -/
+/-! ### PAR: one-shot redemption, only through the issued URN, only by the pushing client, only within the announced lifetime -/
 
 def redeems (u : Nat) : ParOp × ParOut → Bool
   | (.redeem _ u', .proceeds _ _) => u' = u
   | _ => false
 
 /-- URNs in the store are below the fresh counter and distinct -/
-def ParInv (s : ParSt) : Prop := (∀ e ∈ s.db, e.1 < s.next) ∧ (s.db.map (·.1)).Nodup
+def ParInv (s : ParSt) : Prop := (∀ e ∈ s.db, e.urn < s.next) ∧ (s.db.map (·.urn)).Nodup
 
 theorem parInv_step (s : ParSt) (op : ParOp) (h : ParInv s) : ParInv (parStep s op).1 := by
   cases op with
-  | push c ps =>
+  | push c ps ttl =>
     simp only [parStep]
     constructor
     · intro e he
@@ -117,19 +117,23 @@ theorem parInv_step (s : ParSt) (op : ParOp) (h : ParInv s) : ParInv (parStep s 
       have := h.1 e he; omega
   | redeem c u =>
     simp only [parStep]
+    have hf : ParInv { s with db := s.db.filter (fun x => decide (x.urn ≠ u)) } :=
+      ⟨fun e he => h.1 e (List.mem_filter.mp he).1, List.Nodup.sublist (List.Sublist.map _ List.filter_sublist) h.2⟩
     split
-    · constructor
-      · intro e he; exact h.1 e (List.mem_filter.mp he).1
-      · exact List.Nodup.sublist (List.Sublist.map _ List.filter_sublist) h.2
+    · split
+      · exact hf
+      · split
+        · exact hf
+        · exact hf
     · exact h
   | tick n => exact h
 
 /-- after a URN has been redeemed (or was never issued and is below the counter) it is gone for good -/
-def Gone (s : ParSt) (u : Nat) : Prop := u < s.next ∧ ∀ e ∈ s.db, e.1 ≠ u
+def Gone (s : ParSt) (u : Nat) : Prop := u < s.next ∧ ∀ e ∈ s.db, e.urn ≠ u
 
 theorem gone_step (s : ParSt) (op : ParOp) (u : Nat) (h : Gone s u) : Gone (parStep s op).1 u := by
   cases op with
-  | push c ps =>
+  | push c ps ttl =>
     simp only [parStep]
     refine ⟨by have := h.1; simp only; omega, ?_⟩
     intro e he
@@ -139,38 +143,78 @@ theorem gone_step (s : ParSt) (op : ParOp) (u : Nat) (h : Gone s u) : Gone (parS
     · simp only; have := h.1; omega
   | redeem c u' =>
     simp only [parStep]
+    have hf : Gone { s with db := s.db.filter (fun x => decide (x.urn ≠ u')) } u :=
+      ⟨h.1, fun e he => h.2 e (List.mem_filter.mp he).1⟩
     split
-    · exact ⟨h.1, fun e he => h.2 e (List.mem_filter.mp he).1⟩
+    · split
+      · exact hf
+      · split
+        · exact hf
+        · exact hf
     · exact h
   | tick n => exact h
 
-theorem gone_not_redeemed (s : ParSt) (op : ParOp) (u : Nat) (h : Gone s u) : redeems u (op, (parStep s op).2) = false := by
-  cases op with
-  | redeem c u' =>
-    simp only [parStep]
-    split
-    · rename_i e hfind
-      have hm := List.mem_of_find?_eq_some hfind
-      have hu : u' ≠ u := by
-        intro e'; subst e'
-        have := List.find?_some hfind
-        simp at this
-        exact h.2 _ hm this
-      simp [redeems, hu]
-    · simp [redeems]
-  | push c ps => simp [parStep, redeems]
-  | tick n => simp [parStep, redeems]
-
-theorem redeem_makes_gone (s : ParSt) (c : Str) (u : Nat) (hi : ParInv s)
-    (h : redeems u (.redeem c u, (parStep s (.redeem c u)).2) = true) : Gone (parStep s (.redeem c u)).1 u := by
+/-- what a successful redemption establishes — **only the issued URN, only the pushing client, only
+    within the announced lifetime**, and the stored request is what goes on -/
+theorem redeem_proceeds (s : ParSt) (c : Str) (u : Nat) (a : Str) (ps : Params)
+    (h : (parStep s (.redeem c u)).2 = .proceeds a ps) :
+    ∃ e ∈ s.db, e.urn = u ∧ e.client = c ∧ a = c ∧ ps = e.params ∧ s.now ≤ e.expiresAt ∧
+      (parStep s (.redeem c u)).1.db = s.db.filter (fun x => decide (x.urn ≠ u)) := by
   simp only [parStep] at h ⊢
   split at h
   · rename_i e hfind
     have hm := List.mem_of_find?_eq_some hfind
-    have he : e.1 = u := by simpa using List.find?_some hfind
-    simp only [hfind]
-    exact ⟨by rw [← he]; exact hi.1 e hm, fun x hx => by simpa using (List.mem_filter.mp hx).2⟩
-  · simp [redeems] at h
+    have hu : e.urn = u := by simpa using List.find?_some hfind
+    split at h
+    · cases h
+    · rename_i hexp
+      split at h
+      · cases h
+      · rename_i hcl
+        simp only [ParOut.proceeds.injEq] at h
+        have hc : e.client = c := by
+          cases hd : decide (e.client = c) with
+          | true => simpa using hd
+          | false => exact absurd (by simpa using hd) hcl
+        refine ⟨e, hm, hu, hc, by rw [← h.1, hc], h.2.symm, Nat.le_of_not_lt hexp, ?_⟩
+        simp [hexp, hcl]
+  · cases h
+
+theorem gone_not_redeemed (s : ParSt) (op : ParOp) (u : Nat) (h : Gone s u) : redeems u (op, (parStep s op).2) = false := by
+  cases op with
+  | redeem c u' =>
+    cases ho : (parStep s (.redeem c u')).2 with
+    | proceeds a ps =>
+      obtain ⟨e, hm, hu, _⟩ := redeem_proceeds s c u' a ps ho
+      have : u' ≠ u := by
+        intro e'; subst e'
+        exact h.2 e hm hu
+      simp [redeems, this]
+    | urn _ => simp [redeems]
+    | refused => simp [redeems]
+    | ok => simp [redeems]
+  | push c ps ttl => simp [parStep, redeems]
+  | tick n => simp [parStep, redeems]
+
+theorem redeem_makes_gone (s : ParSt) (c : Str) (u : Nat) (hi : ParInv s)
+    (h : redeems u (.redeem c u, (parStep s (.redeem c u)).2) = true) : Gone (parStep s (.redeem c u)).1 u := by
+  cases ho : (parStep s (.redeem c u)).2 with
+  | proceeds a ps =>
+    obtain ⟨e, hm, hu, _, _, _, _, hdb⟩ := redeem_proceeds s c u a ps ho
+    refine ⟨?_, ?_⟩
+    · have : (parStep s (.redeem c u)).1.next = s.next := by
+        simp only [parStep]; split
+        · split
+          · rfl
+          · split <;> rfl
+        · rfl
+      rw [this, ← hu]; exact hi.1 e hm
+    · rw [hdb]
+      intro x hx
+      simpa using (List.mem_filter.mp hx).2
+  | urn _ => rw [ho] at h; simp [redeems] at h
+  | refused => rw [ho] at h; simp [redeems] at h
+  | ok => rw [ho] at h; simp [redeems] at h
 
 /-- **one-shot**: in every history of pushes, redemptions (by any client, of any URN, replayed any
     number of times) and clock advances, each URN is honoured at most once -/
@@ -187,12 +231,14 @@ theorem par_one_shot_from (ops : List ParOp) (s : ParSt) (u : Nat) (hi : ParInv 
         cases op with
         | redeem c u' =>
           have : u' = u := by
-            simp only [parStep] at hr
-            split at hr <;> simp [redeems] at hr
-            exact hr
+            cases ho : (parStep s (.redeem c u')).2 with
+            | proceeds a ps => rw [ho] at hr; simpa [redeems] using hr
+            | urn _ => rw [ho] at hr; simp [redeems] at hr
+            | refused => rw [ho] at hr; simp [redeems] at hr
+            | ok => rw [ho] at hr; simp [redeems] at hr
           subst this
           exact redeem_makes_gone s c u' hi hr
-        | push c ps => simp [parStep, redeems] at hr
+        | push c ps ttl => simp [parStep, redeems] at hr
         | tick n => simp [parStep, redeems] at hr
       simp only [hr, if_true, List.length_cons]
       refine ⟨by rw [ih2 hg]; omega, ?_⟩
@@ -207,21 +253,24 @@ theorem par_one_shot (ops : List ParOp) (u : Nat) :
   (par_one_shot_from ops {} u ⟨by simp, by simp⟩).1
 
 /-- only the issued URN: a URN that was never issued is refused -/
-theorem unknown_urn_refused (s : ParSt) (c : Str) (u : Nat) (h : ∀ e ∈ s.db, e.1 ≠ u) :
+theorem unknown_urn_refused (s : ParSt) (c : Str) (u : Nat) (h : ∀ e ∈ s.db, e.urn ≠ u) :
     (parStep s (.redeem c u)).2 = .refused := by
-  simp only [parStep]
-  split
-  · rename_i e hfind
-    have hm := List.mem_of_find?_eq_some hfind
-    have : e.1 = u := by simpa using List.find?_some hfind
-    exact absurd this (h e hm)
-  · rfl
+  cases ho : (parStep s (.redeem c u)).2 with
+  | proceeds a ps =>
+    obtain ⟨e, hm, hu, _⟩ := redeem_proceeds s c u a ps ho
+    exact absurd hu (h e hm)
+  | refused => rfl
+  | urn _ => simp only [parStep] at ho; split at ho <;> (try split at ho) <;> (try split at ho) <;> cases ho
+  | ok => simp only [parStep] at ho; split at ho <;> (try split at ho) <;> (try split at ho) <;> cases ho
 
-/-- the lifetime announced at push time is NOT enforced (F-C16-c), and the redeeming request's
-    client_id is ignored — the flow proceeds as the pushing client (F-C16-d): proved about the
-    model, replayed on the implementation on every run -/
-theorem par_lifetime_and_client_counterexample :
-    (parRun {} [.push [49] [], .tick 100000, .redeem [50] 0]).2 = [.urn 0, .ok, .proceeds [49] []] := by
+/-- the announced lifetime and the pushing client are enforced (F-C16-c/d, fixed): worked histories —
+    pushed with ttl 60, redeemed 61 s later: refused; pushed by client 49, redeemed by 50: refused, and
+    the request cannot be used by its owner afterwards either (the entry is consumed); in time and by
+    its owner: proceeds, once -/
+theorem par_lifetime_and_client :
+    (parRun {} [.push [49] [] 60, .tick 61, .redeem [49] 0]).2 = [.urn 0, .ok, .refused] ∧
+    (parRun {} [.push [49] [] 60, .redeem [50] 0, .redeem [49] 0]).2 = [.urn 0, .refused, .refused] ∧
+    (parRun {} [.push [49] [] 60, .tick 60, .redeem [49] 0, .redeem [49] 0]).2 = [.urn 0, .ok, .proceeds [49] [], .refused] := by
   decide
 
 end Idpy.Props.C16
